@@ -47,7 +47,7 @@ class DashOption:
     cgi_type: str | None = None
     input_type: str = ''
     from_string: Callable[[str], Any] = field(default_factory=lambda: DashOption.string_or_none)
-    to_string: Callable[[str], Any] = field(default_factory=lambda: flatten)
+    to_string: Callable[[str], Any] = field(default_factory=lambda: DashOption.url_text)
     prefix: str = field(default='')
     featured: bool = False
     html: str | None = None
@@ -172,6 +172,19 @@ class DashOption:
             input['options'] = field_choices[input['type']]
             input['type'] = 'select'
         return input
+
+    @staticmethod
+    def url_text(value: Any) -> Any:
+        """
+        Default conversion of an option value to the text that is placed in a URL.
+        Strings (and the items of a list of strings) are escaped, as the text is
+        appended to URLs without any further processing
+        """
+        if isinstance(value, str):
+            return urllib.parse.quote_plus(value)
+        if isinstance(value, (list, tuple)) and all(isinstance(v, str) for v in value):
+            return ','.join([urllib.parse.quote_plus(v) for v in value])
+        return flatten(value)
 
     @staticmethod
     def bool_from_string(value: str) -> bool:
